@@ -19,7 +19,7 @@
    tie choice is checked to be unobservable per case (observation 51). *)
 From Coq Require Import String List Bool ZArith Arith QArith.
 From GV Require Import Base.Outcome Base.AMap Model.GState Model.Query Model.Cent Model.Brandes.
-From GV Require Import Spec.BetweennessDef Spec.ClosenessDef Proofs.BrandesOk Proofs.BrandesAccOk Proofs.ClosenessBfsOk Proofs.BrandesBfsOk Proofs.PathsOk Proofs.BrandesLemma Proofs.BrandesLemma2 Proofs.BrandesFull.
+From GV Require Import Spec.BetweennessDef Spec.ClosenessDef Proofs.BrandesOk Proofs.BrandesAccOk Proofs.ClosenessBfsOk Proofs.BrandesBfsOk Proofs.PathsOk Proofs.BrandesLemma Proofs.BrandesLemma2 Proofs.BrandesFull Proofs.DijkstraOk.
 Import ListNotations.
 
 (* ---- the definition ---- *)
@@ -181,3 +181,17 @@ Theorem C05_model_hop_count : forall (T A : Type) lw (gs : gstate T A) normalize
     (rows_nodup a = true ->
      Forall2 Qeq (map snd m) (bc_def a normalized (directed (sp gs)))).
 Proof. intros T A. exact (@model_hop_count T A). Qed.
+
+(* ---- weighted mode, partial: the heap stage finalises the true shortest distances, for every
+   tie choice of the BinaryHeap (what is missing for the full weighted statement: the P / sigma
+   part of the stage invariant with the uniform factor 2, and Brandes' lemma for weighted
+   shortest-path DAGs) ---- *)
+Theorem C05_stage_dijkstra_distances_partial : forall (g : qadj) (src : nat),
+  adj_ok (length g) g = true -> (src < length g)%nat ->
+  (forall v e, In e (get [] g v) -> exists c, snd e = inject_Z c /\ (0 < c)%Z) ->
+  forall lw s, bdijkstra lw g src = Some s ->
+  (forall w, dist_spec (zof g) src w (oget (dz s) w)) /\
+  oget (dz s) src = Some 0%Z /\
+  (forall w x, oget (dz s) w = Some x -> w <> src -> (0 < x)%Z) /\
+  (forall w q, DD s w = Some q -> q = inject_Z (Qnum q)).
+Proof. exact dijkstra_distances. Qed.
